@@ -25,6 +25,7 @@ def run(ctx):
     wiring(ctx)
     cache(ctx)
     c01.clause_recs_for(ctx, ["LinearFourRates"])
+    c01.lfr_cadence(ctx)
 
 
 def _static(ctx, name, **kw):
